@@ -307,6 +307,20 @@ Section VerifyProofs.
     unfold stamp_differs, present in *. cbn [f_text f_size f_mtime] in *. rewrite Hs. reflexivity.
   Qed.
 
+  (* a file that cannot be opened authenticates nobody (cache off: at once; cache on: as soon as the stamp shows
+     a change -- and the cached dict is then empty) *)
+  Theorem c05_htpasswd_unreadable : forall cfg st sz mt l pw,
+    let f := {| f_text := FUnreadable; f_size := sz; f_mtime := mt |} in
+    (h_cache cfg = false \/ stamp_differs st f = true) ->
+    snd (hlogin cfg st f l pw) = LFail /\
+    (h_cache cfg = true -> h_tab (fst (hlogin cfg st f l pw)) = []).
+  Proof.
+    intros cfg st sz mt l pw f [Hc|Hs]; subst f; unfold Htpasswd.hlogin.
+    - rewrite Hc. cbn. split; [reflexivity|discriminate].
+    - destruct (h_cache cfg); cbn; [|split; [reflexivity|discriminate]].
+      unfold stamp_differs in Hs. cbn in Hs. rewrite Hs. cbn. split; reflexivity.
+  Qed.
+
   (* ---------------------------------------------------------------- start-up *)
   Theorem c05_htpasswd_init : forall cfg f st, init cfg f = Some st ->
     flags_ok cfg st
@@ -318,7 +332,7 @@ Section VerifyProofs.
     intros cfg f st H. unfold init, init_with in H.
     destruct (read_file true false f) as [| |tab buse] eqn:Er; try discriminate.
     assert (Hcoh : forall hb, (hb = true \/ buse = 0) -> read_file false hb f = ROk tab 0).
-    { intros hb Hhb. unfold read_file in *. destruct (f_text f) as [| |t]; try discriminate.
+    { intros hb Hhb. unfold read_file in *. destruct (f_text f) as [| | |t]; try discriminate.
       destruct (read_lines true false (file_lines t) [] 0) as [[tab0 b0]|] eqn:El; [|discriminate].
       inversion Er; subst. erewrite read_lines_init_reread; [reflexivity|exact El|].
       destruct Hhb; auto. }
